@@ -310,9 +310,15 @@ def eval_equal(module_text, old_expr, new_expr):
         env = _Env(p=3, q="w", pair=(4, 5))
         try:
             code = compile(ast.Expression(body=expr), "<c16-expr>", "eval")
+            calls = glob.get("CALLS")
+            if isinstance(calls, list):
+                del calls[:]
             with warnings.catch_warnings():
                 warnings.simplefilter("ignore")
-                results.append(("value", repr(eval(code, glob, env))))
+                value = repr(eval(code, glob, env))
+            # the helpers of the generated modules log their calls: order and multiplicity of the
+            # operand evaluations are part of the comparison
+            results.append(("value", value, repr(list(calls)) if isinstance(calls, list) else ""))
         except BaseException as e:
             results.append(("raised", type(e).__name__))
     return True, results[0] == results[1], "%s vs %s" % (results[0], results[1])
@@ -375,6 +381,19 @@ def nested_yield_on_lines(text, linenos):
         for node in ast.walk(stmt):
             if isinstance(node, ast.Yield) and node is not direct and not isinstance(stmt, (ast.FunctionDef, ast.AsyncFunctionDef, ast.If, ast.For, ast.While, ast.With, ast.Try)):
                 return True
+    return False
+
+
+def removed_marker_line_inside_string(before, after):
+    """Was a line that merely LOOKS like an ignore comment, but lies inside a multi-line string
+    literal, removed between before and after?"""
+    b, a = pylines(before), pylines(after)
+    sm = difflib.SequenceMatcher(a=b, b=a, autojunk=False)
+    for tag, i1, i2, j1, j2 in sm.get_opcodes():
+        if tag in ("delete", "replace"):
+            for k in range(i1, i2):
+                if IGNORE in b[k] and line_inside_multiline_string(before, k + 1):
+                    return True
     return False
 
 
@@ -512,6 +531,8 @@ class Judge:
                 sig = "ast-changed"
                 if line_inside_multiline_string(before[name], first["del"][0]):
                     sig = "comment-inserted-inside-multiline-string"
+                if removed_marker_line_inside_string(before[name], after[name]):
+                    sig = "ignore-text-inside-multiline-string-removed-as-unused-comment"
                 self.add("S2", e["i"], "add_ignores:%s" % sig, "add-ignores changed the syntax tree of %s" % name, file=name, before=before[name], after=after[name])
         self.pending = {"mode": mode, "before": before, "after": after, "applied": applied, "step": e["i"]}
 
@@ -681,7 +702,10 @@ class Judge:
             return
         if code == "unused_ignore":
             if diffs:
-                fail("autofix:unused_ignore:ast-changed", "%s: removing an unused ignore comment changed the syntax tree" % name, file=name, before=old_text, after=new_text)
+                sig = "ast-changed"
+                if removed_marker_line_inside_string(old_text, new_text):
+                    sig = "ignore-text-inside-multiline-string-removed-as-unused-comment"
+                fail("autofix:unused_ignore:%s" % sig, "%s: removing an unused ignore comment changed the syntax tree" % name, file=name, before=old_text, after=new_text)
             else:
                 self.stats["S4_autofix_ok"] += 1
             return
@@ -814,6 +838,8 @@ class Judge:
         for name in after:
             if name in before and safe_dump(before[name]) != safe_dump(after[name]):
                 sig = "ast-changed"
+                if removed_marker_line_inside_string(before[name], after[name]):
+                    sig = "ignore-text-inside-multiline-string-removed-as-unused-comment"
                 after_lines = pylines(after[name])
                 for k, l in enumerate(after_lines):
                     if l.strip().startswith(IGNORE) and line_inside_multiline_string(after[name], k + 1, strict_end=False):
